@@ -41,47 +41,6 @@ def run(ctx):
         sc["end"] = (0xFFFFFF + 10) * scen.T
         scs.append(sc)
     stackprop.run_scenarios(ctx, scs, 3009, CODES, what="TTL store")
-    early_iteration(ctx, scs[: 150 if quick else 3000])
-
-
-def early_iteration(ctx, scs):
-    """asyncio runs a timer up to one clock resolution before its deadline when something else wakes the loop then.  Every
-    scenario in which a datagram / API call falls on the tick of a TTL deadline is run a second time with that event
-    delivered a quarter tick early (harness/vloop.py early_at): the expiry then runs while loop.time() is still below
-    its deadline.  Trace and final state must be what they are with exact delivery; the early trace is judged by check_C09."""
-    from .. import sexp, sim
-    n = 0
-    for sc in scs:
-        if sc["end"] > 64 * scen.T:
-            continue
-        tr, comp, (fin, ghost) = sim.run_impl(sc)
-        if not comp:
-            continue
-        deadlines = {g[0] + g[5] * scen.T for g in ghost if g[1] == 3 and g[5] != 0xFFFFFF}
-        ticks = {t for t, ev in sc["events"]} & deadlines
-        if not ticks:
-            continue
-        n += 1
-        tr2, comp2, (fin2, _) = sim.run_impl(sc, early_at=ticks)
-        # timers armed in an early iteration are due a quarter tick before those armed on the tick: two expiries of one
-        # tick may swap - the events of one instant are compared as a multiset
-        def by_tick(t):
-            return sorted((e[0], sexp.dumps(e[1])) for e in sim.norm(t))
-        if by_tick(tr2) != by_tick(tr) or sim.norm(fin2) != sim.norm(fin) or comp2 != comp:
-            # a timer re-armed in the early iteration is due a quarter tick before its tick from then on: at a later
-            # coincidence it runs BEFORE the event of that tick instead of behind it - another legal schedule.  The early
-            # trace is therefore judged by the checker (which knows these ambiguities), not by equality with the exact run
-            v = ctx.model.call(3009, [sim.scenario_sexp(sc), stackprop.trace_sexp(tr2)])
-            codes = sexp.loads(v) if v.startswith("(") else [98]
-            ctx.dist["early-run-differs-from-exact-run"] += 1
-            if not codes:
-                continue
-            ctx.violation("TTL store: the outcome depends on a datagram arriving a fraction of the clock resolution before a TTL deadline (the expiry runs in that "
-                          "iteration, loop.time() still below the deadline)" + ("; " + "; ".join(CODES.get(c, f"checker code {c}") for c in codes) if codes else ""),
-                          dict(scenario=stackprop.describe(sc), early_ticks=sorted(ticks), trace_exact=sexp.dumps(sim.norm(tr))[:6000],
-                               trace_early=sexp.dumps(sim.norm(tr2))[:6000], checker_codes=codes))
-        ctx.case(("early", sexp.dumps(stackprop.describe(sc)["events"])[:400]) if False else ("early", n), nontrivial=True, kind="early-iteration")
-    ctx.notes["early_iteration_scenarios"] = n
 
 
 def replay(ctx, rp):
